@@ -117,6 +117,14 @@ pub fn run_parts(ctx: &mut Ctx, prop: &'static str) {
     let cases = ctx.tier.pick(40_000, 500_000);
     let strat = crate::families::fam_case_strategy(vec![0, 1, 2], vec![DdKind::Lel, DdKind::Frontier, DdKind::Pooled], false);
     ctx.pt_run("families", cases, strat, |c| serde_json::to_value(c).unwrap(), |c, obs| crate::props::fam::eval_family(c, obs, prop));
+    // ---- part 4: knapsacks with 10..=16 items: long searches, dozens of open nodes, deep re-convergence ----
+    let cases = ctx.tier.pick(2_500, 25_000);
+    let strat = {
+        use crate::families::*;
+        use proptest::strategy::Strategy;
+        (knap_large_strategy(), config_strategy(ConfigGen { max_width: 3, rub_none_only: true, dom: Some(false), ..Default::default() })).prop_map(|(k, cfg)| FamCase { fam: Family::Knap(k), dd: cfg.dd, cache: cfg.cache, fringe: cfg.fringe, width: cfg.width, threads: None })
+    };
+    ctx.pt_run("knapsack-large", cases, strat, |c| serde_json::to_value(c).unwrap(), |c, obs| crate::props::fam::eval_family(c, obs, prop));
     ctx.stats.exhaustive.insert("table-exhaustive: all 3^12 transition tables (n=3,B=2,nd=2) x 3 cost tables, one rotating configuration each".into(), stride == 1);
 }
 
